@@ -206,7 +206,7 @@ type simReader struct {
 	ret     []byte // every byte Read has returned, in order
 	retLog  []int  // sizes
 	retStep []int
-	zero    bool   // next read returns (0, nil)
+	zero    int    // so many of the next reads return (0, nil)
 	buf     []byte // the caller's buffer while a Read is parked (a Reader may use all of it as scratch space during the call)
 }
 
@@ -223,8 +223,8 @@ func (r *simReader) Read(p []byte) (int, error) {
 			s.mu.Unlock()
 			return 0, io.ErrClosedPipe
 		}
-		if r.zero {
-			r.zero = false
+		if r.zero > 0 {
+			r.zero--
 			s.mu.Unlock()
 			return 0, nil
 		}
@@ -286,14 +286,12 @@ func scribble(p []byte) {
 }
 
 // release hands data and/or a terminal error to the reader.
-func (r *simReader) release(data []byte, errKind string, zero bool) {
+func (r *simReader) release(data []byte, errKind string, zero int) {
 	r.pending = append(r.pending, data...)
 	if errKind != "" {
 		r.pendErr, r.hasErr, r.errKind = errByName(errKind), true, errKind
 	}
-	if zero {
-		r.zero = true
-	}
+	r.zero += zero
 	if r.parked != nil {
 		close(r.parked)
 		r.parked = nil
